@@ -86,12 +86,33 @@ def split_times(node):
     return name, body, (times.get("min", 1), times.get("max", 1))
 
 
+def capture_names(node):
+    """capture names (&...) used anywhere in a pattern node, in order of first use"""
+    out = []
+
+    def walk(x):
+        if isinstance(x, str):
+            if x.startswith("&") and x not in out:
+                out.append(x)
+        elif isinstance(x, dict):
+            for k, v in x.items():
+                walk(k)
+                walk(v)
+        elif isinstance(x, (list, tuple)):
+            for y in x:
+                walk(y)
+
+    walk(node)
+    return out
+
+
 class Spec:
-    def __init__(self, world, mnem_full=False, ops_full=False, env=None):
+    def __init__(self, world, mnem_full=False, ops_full=False, env=None, local_dom=None):
         self.w = world
         self.mnem_full = mnem_full
         self.ops_full = ops_full
         self.env = env or {}  # capture name -> bound text (C05)
+        self.local_dom = local_dom or {}  # captures first used inside a $not argument: name -> values (local to the argument)
 
     # ---------------------------------------------------------------- grammar
     def HEX(self, C):
@@ -307,6 +328,18 @@ class Spec:
         if name == "$not":
             if len(body) != 1:
                 raise SpecError("$not arity")
+            loc = [n for n in capture_names(body[0]) if n not in self.env and n in self.local_dom]
+            if loc:
+                # captures first used inside the argument are local to it: X fails = it fails under every binding
+                r = z3.Concat(self.REC(C), K)
+                saved = self.env
+                for vals in itertools.product(*[self.local_dom[n] for n in loc]):
+                    self.env = dict(saved, **dict(zip(loc, vals)))
+                    try:
+                        r = inter(r, comp(self.ins(body[0], self.w.ANY, A)))
+                    finally:
+                        self.env = saved
+                return r
             return inter(z3.Concat(self.REC(C), K), comp(self.ins(body[0], self.w.ANY, A)))
         if name.startswith("$"):
             raise SpecError(f"operator {name}")
